@@ -78,6 +78,8 @@ func (s *DefaultMetricSearcher) searchOffsetAndRead(beginTimeMs uint64, doRead f
 		// Retrieve the start offset that is valid for given condition.
 		// If offset = -1, it indicates that current file (i) does not satisfy the condition.
 		offset, err := s.findOffsetToStart(filename, beginTimeMs, offsetStart)
+		// The cached idx position belongs to the cached file only; the following files are scanned from the beginning.
+		offsetStart = 0
 		if err != nil {
 			logging.Warn("[searchOffsetAndRead] Failed to findOffsetToStart, will try next file", "beginTimeMs", beginTimeMs,
 				"filename", filename, "offsetStart", offsetStart, "err", err)
@@ -98,7 +100,7 @@ func (s *DefaultMetricSearcher) getOffsetStartAndFileIdx(filenames []string, beg
 	}
 	if cacheOk {
 		for j, v := range filenames {
-			if v != s.cachedPos.metricFilename {
+			if v == s.cachedPos.metricFilename {
 				i = uint32(j)
 				offsetInIdx = s.cachedPos.curOffsetInIdx
 				break
